@@ -20,10 +20,13 @@ PROP = 'C05'
 
 
 INT_COORDS = False
+MESH_TRANSPOSED = False      # connectivity stored with the element dimension last (the *_dimension attributes name the grids)
+POINT_TAKEN = False          # the dataset already has a dimension called 'point', used by a variable on the face grid
 
 
-def make(ctx, conv, bounds_coords=False, int_coords=False):
-    global INT_COORDS
+def make(ctx, conv, bounds_coords=False, int_coords=False, transposed=False, point_taken=False):
+    global INT_COORDS, MESH_TRANSPOSED, POINT_TAKEN
+    MESH_TRANSPOSED, POINT_TAKEN = transposed, point_taken
     builders.BOUNDS_AS_COORDS = bounds_coords
     INT_COORDS = int_coords
     try:
@@ -31,6 +34,7 @@ def make(ctx, conv, bounds_coords=False, int_coords=False):
     finally:
         builders.BOUNDS_AS_COORDS = False
         INT_COORDS = False
+        MESH_TRANSPOSED = POINT_TAKEN = False
     # the cells that can be selected are the cells the dataset describes
     from harness import geomref
     geomref.check(ctx, ds, cv, kind=conv)
@@ -58,6 +62,8 @@ def _make(ctx, conv):
                 'when': (('y', 'x'), (numpy.datetime64('2020-01-01T00:00', 'ns') + numpy.arange(ny * nx) * numpy.timedelta64(1, 'h')).reshape(ny, nx)),
                 'lag': (('x', 'y'), (numpy.arange(ny * nx) * numpy.timedelta64(90, 'm')).astype('timedelta64[ns]').reshape(nx, ny)),
                 'clock': (('t',), numpy.array([5.0, 6.0]))}
+        if POINT_TAKEN:
+            data['tracked'] = (('point', 'y', 'x'), sym('tracked', (2, ny, nx)))
         if INT_COORDS:
             # whole-degree coordinates stored in integer types, odd spacings (cell edges are half-way values)
             ds = builders.cf1d(ny, nx, lat=numpy.array([10, 11], dtype='int32'), lon=numpy.array([100, 103], dtype='int64'), data_vars=data)
@@ -109,7 +115,9 @@ def _make(ctx, conv):
                 'single_node': (('nnode', 'one'), sym('sn', (len(nodes), 1))),
                 'clock': (('t',), numpy.array([5.0, 6.0]))}
         # one-based integer tables with the fill value kept as an attribute (mask_and_scale=False / built in memory)
-        ds = builders.ugrid(mesh, supply=('edge_node',), data_vars=data, start_index=1, fill='attr')
+        if POINT_TAKEN:
+            data['tracked'] = (('point', 'nface'), sym('tracked', (2, len(faces))))
+        ds = builders.ugrid(mesh, supply=('edge_node',), data_vars=data, start_index=1, fill='attr', transposed=MESH_TRANSPOSED)
         cv = UGrid(ds)
         info = dict(kinds={'face': (('nface',), (len(faces),)), 'edge': (('nedge',), (ne,)), 'node': (('nnode',), (len(nodes),))},
                     geometry=['mesh', 'face_node', 'node_x', 'node_y', 'edge_node'])
@@ -161,8 +169,8 @@ def check_selected(ctx, ds, out, info, kind, concrete_indexes, dim, label, drop_
         ctx.check(And(*oks), f'{label}: entry k holds the values stored at request k ({name})')
 
 
-def body_indexes(ctx, conv, kind, nreq, mode, bounds_coords=False):
-    ds, cv, info = make(ctx, conv, bounds_coords)
+def body_indexes(ctx, conv, kind, nreq, mode, bounds_coords=False, transposed=False):
+    ds, cv, info = make(ctx, conv, bounds_coords, transposed=transposed)
     dims, shape = info['kinds'][kind]
     reqs = []
     for k in range(nreq):
@@ -298,8 +306,8 @@ class DescendingTree:
         return numpy.sort(hits)[::-1]
 
 
-def body_points(ctx, conv, nreq, policy, api, dimname, boundary=False, bounds_coords=False, relabel=False, int_coords=False):
-    ds, cv, info = make(ctx, conv, bounds_coords, int_coords)
+def body_points(ctx, conv, nreq, policy, api, dimname, boundary=False, bounds_coords=False, relabel=False, int_coords=False, point_taken=False):
+    ds, cv, info = make(ctx, conv, bounds_coords, int_coords, point_taken=point_taken)
     polygons = cv.polygons
     N = len(polygons)
     dims, shape = info['kinds']['face']
@@ -338,7 +346,8 @@ def body_points(ctx, conv, nreq, policy, api, dimname, boundary=False, bounds_co
     hits = [k for k, o in enumerate(outcomes) if o >= 0]
     misses = [k for k, o in enumerate(outcomes) if o < 0]
     hit_cells = [tuple(int(v) for v in numpy.unravel_index(outcomes[k], shape)) for k in hits]
-    dim = dimname or 'point'
+    # (the default name steps aside when the dataset already has a dimension called 'point')
+    dim = dimname or ('point_0' if point_taken else 'point')
 
     from emsarray.operations import point_extraction
     if api == 'select_points':
@@ -461,6 +470,12 @@ def cases(tier):
                            dict(conv=conv, nreq=2, policy=policy, api='extract_dataframe', dimname=None, relabel=True), max_paths=50000, split=16)
                 yield Case(f'points:{conv}:extract_dataframe:{policy}:2:relabelled-table:range', body_points,
                            dict(conv=conv, nreq=2, policy=policy, api='extract_dataframe', dimname=None, relabel='range'), max_paths=50000, split=16)
+            yield Case(f'points:{conv}:select_points:drop:2:point-dimension-taken', body_points,
+                       dict(conv=conv, nreq=2, policy='drop', api='select_points', dimname=None, point_taken=True), max_paths=50000, split=16)
+            if conv == 'ugrid':
+                for kind in ('edge', 'face'):
+                    yield Case(f'index:{conv}:{kind}:select_indexes2:transposed-tables', body_indexes,
+                               dict(conv=conv, kind=kind, nreq=2, mode='select_indexes', transposed=True), max_paths=50000, split=16)
             yield Case(f'points:{conv}:select_points:drop:2:integer-coordinates', body_points,
                        dict(conv=conv, nreq=2, policy='drop', api='select_points', dimname=None, int_coords=(conv == 'cf1d')), max_paths=50000, split=16)
         yield Case(f'points:{conv}:extract_dataframe:fill:custom', body_points,
